@@ -18,6 +18,7 @@ import (
 	"crypto/tls"
 	"crypto/x509"
 	"net"
+	"runtime/debug"
 
 	accountmanagerhandler "github.com/attestantio/dirk/services/api/grpc/handlers/accountmanager"
 	listerhandler "github.com/attestantio/dirk/services/api/grpc/handlers/lister"
@@ -28,6 +29,7 @@ import (
 	"github.com/attestantio/dirk/services/metrics"
 	"github.com/attestantio/dirk/util/loggers"
 	grpcmiddleware "github.com/grpc-ecosystem/go-grpc-middleware"
+	grpcrecovery "github.com/grpc-ecosystem/go-grpc-middleware/recovery"
 	grpcctxtags "github.com/grpc-ecosystem/go-grpc-middleware/tags"
 	"github.com/pkg/errors"
 	"github.com/rs/zerolog"
@@ -35,9 +37,11 @@ import (
 	pb "github.com/wealdtech/eth2-signer-api/pb/v1"
 	"go.opentelemetry.io/contrib/instrumentation/google.golang.org/grpc/otelgrpc"
 	"google.golang.org/grpc"
+	"google.golang.org/grpc/codes"
 	"google.golang.org/grpc/credentials"
 	_ "google.golang.org/grpc/encoding/gzip" // Enable GZIP compression.
 	"google.golang.org/grpc/grpclog"
+	"google.golang.org/grpc/status"
 )
 
 // Service provides the features and functions for the GRPC daemon.
@@ -140,6 +144,7 @@ func (s *Service) createServer(name string, certPEMBlock []byte, keyPEMBlock []b
 		grpc.StatsHandler(otelgrpc.NewServerHandler()),
 		grpc.UnaryInterceptor(
 			grpcmiddleware.ChainUnaryServer(
+				grpcrecovery.UnaryServerInterceptor(grpcrecovery.WithRecoveryHandler(recoverFromPanic)),
 				grpcctxtags.UnaryServerInterceptor(grpcctxtags.WithFieldExtractor(grpcctxtags.CodeGenRequestFieldExtractor)),
 				interceptors.RequestIDInterceptor(),
 				interceptors.SourceIPInterceptor(),
@@ -174,6 +179,13 @@ func (s *Service) createServer(name string, certPEMBlock []byte, keyPEMBlock []b
 	s.grpcServer = grpc.NewServer(grpcOpts...)
 
 	return nil
+}
+
+// recoverFromPanic turns a panic in a request handler in to an error for the caller,
+// so that a single request cannot bring down the daemon.
+func recoverFromPanic(p any) error {
+	log.Error().Interface("panic", p).Str("stack", string(debug.Stack())).Msg("Recovered from panic in request handler")
+	return status.Error(codes.Internal, "Internal error")
 }
 
 // Serve serves the GRPC server.
